@@ -31,7 +31,7 @@ def native_build(unit_name, cpp, sessions, defines, wd):
 
 def native_run(exe, fn, inputs, wd, tag):
     path = os.path.join(wd, 'in_%s_%s.txt' % (fn, tag))
-    open(path, 'w').write('\n'.join(str(x) for x in inputs) + '\n')
+    open(path, 'w').write('\n'.join(('S %d %d %d' % (x[1], x[2], x[3])) if isinstance(x, list) else ('I %d' % x) for x in inputs) + '\n')
     env = dict(os.environ)
     env['GLOG_logtostderr'] = '1'
     rc, out, err, dt = pipeline.sh([exe, fn, path], timeout=120, env=env)
@@ -77,10 +77,10 @@ def main():
 
     def build(uname):
         u = UNITS[uname]
-        roots = sorted(set(h['fn'] for hs in REGISTRY.values() for h in hs if h['unit'] == uname)) + list(u.get('extra_roots', ()))
+        roots = sorted(set(h['fn'] for hs in REGISTRY.values() for h in hs if h['unit'] == uname)) + list(u.get('extra_roots', ())) + list(u.get('coroutines', ()))
         return pipeline.build_unit(uname, os.path.join(VERIF, u['cpp']), roots, defines=u.get('defines', ()),
                                    sessions=u.get('sessions', 2), cuts=u.get('cuts', ()), inline_all=u.get('inline_all', False),
-                                   cdefs=u.get('cdefs', ()), all_hooks=u.get('all_hooks', False),
+                                   cdefs=u.get('cdefs', ()), all_hooks=u.get('all_hooks', False), coroutines=u.get('coroutines', ()),
                                    extra_c=[os.path.join(VERIF, x) for x in u.get('extra_c', ())])
     with ThreadPoolExecutor(max_workers=a.jobs) as ex:
         futs = {ex.submit(build, n): n for n in need}
@@ -101,7 +101,7 @@ def main():
                 continue
             kw = dict(timeout=h.get('timeout', 300 if tier == 'quick' else 3600), default_data=h.get('data', 4),
                       unwind_overrides=h.get('unwind'), checks=h.get('checks', False), tags=h.get('tags', ()),
-                      recursion=h.get('recursion', 1))
+                      recursion=h.get('recursion', 1), sync_bound=h.get('sync', 2))
             if 'solver' in h:
                 kw['solver'] = h['solver']
             hf[ex.submit(pipeline.run_harness, units[h['unit']], h['fn'], tier, **kw)] = h
